@@ -342,17 +342,85 @@ Proof.
   - apply present_inj; apply etree_key_ok; assumption.
 Qed.
 
-Lemma etree_key_nc dns (st : list (str * str)) q :
-  Forall (fun k => skey_ok dns k = true) (map fst st) -> plainq q = true -> etree_key dns st q = etree_key0 dns q.
+Lemma norm_present0 dns k : skey_ok dns k = true -> norm dns (present dns k) = present dns k.
 Proof.
-  intros Hk Hq. unfold etree_key, etree_key0. destruct (null (fst q)) eqn:En; [reflexivity|]. cbn [negb andb].
-  destruct (str_eqb dns (fst q)) eqn:Ed; [|reflexivity]. cbn [negb orb].
-  destruct (ahas str_eqb st (clark q)) eqn:Eh; [|reflexivity]. exfalso.
-  apply (ahas_in str_eqb str_eqb_eq) in Eh. rewrite Forall_forall in Hk. specialize (Hk _ Eh).
-  unfold skey_ok, collides, clark in Hk. unfold plainq in Hq. apply andb_true_iff in Hq. destruct Hq as [Hq1 Hq2].
-  rewrite (spec_clark_braced (fst q) (snd q) Hq1) in Hk. rewrite Ed in Hk.
-  apply andb_true_iff in Hk. destruct Hk as [_ Hk]. discriminate.
+  unfold skey_ok, skey_shape, norm. rewrite present_spec.
+  destruct (spec_clark k) as [[[ns|] n]|]; [| |discriminate]; cbn [fst snd].
+  - rewrite !andb_true_iff, !negb_true_iff. intros [[[Hn _] _] _]. rewrite Hn. reflexivity.
+  - intros _. destruct (null dns); reflexivity.
 Qed.
+Lemma shape_decon k : skey_shape k = true -> decon_ok k = true.
+Proof. unfold skey_shape. rewrite decon_ok_spec. destruct (spec_clark k); [reflexivity|discriminate]. Qed.
+
+Lemma plainq_present0 dns k : plain dns = true -> skey_ok dns k = true -> plainq (present dns k) = true.
+Proof.
+  intros Hd. unfold skey_ok, skey_shape, plainq. rewrite present_spec.
+  destruct (spec_clark k) as [[[ns|] n]|]; [| |discriminate]; cbn [fst snd]; rewrite !andb_true_iff.
+  - intros [[[_ H1] H2] _]. auto.
+  - intros [H _]. auto.
+Qed.
+
+(* ------------------------------------------------------------------------------------------ *)
+(* stores that may hold `{d}name` for the default namespace d: `canon` renames such a key to `name`; a store
+   that never holds both is, up to this renaming, a store without such keys, and `etree_key` picks the
+   member of {name, {d}name} that is present *)
+Definition canon (dns k : str) : str := if collides dns k then plain_of k else k.
+
+Definition SWf (dns : str) (st : list (str * str)) : Prop :=
+  Forall (fun k => skey_shape k = true) (map fst st) /\ NoDup (map fst st) /\
+  (forall k, In k (map fst st) -> collides dns k = true -> ~ In (plain_of k) (map fst st)).
+
+Lemma plain_not_clark x q : plain x = true -> x <> clark q.
+Proof. intros H ->. unfold clark in H. cbn in H. discriminate. Qed.
+
+Lemma clark_spec a b : plain a = true -> spec_clark (clark (a, b)) = Some (Some a, b).
+Proof. intros H. unfold clark. cbn [fst snd]. apply spec_clark_braced. exact H. Qed.
+Lemma clark_collides dns a b : plain a = true -> collides dns (clark (a, b)) = str_eqb dns a.
+Proof. intros H. unfold collides. rewrite (clark_spec a b H). reflexivity. Qed.
+Lemma clark_plain_of a b : plain a = true -> plain_of (clark (a, b)) = b.
+Proof. intros H. unfold plain_of. rewrite (clark_spec a b H). reflexivity. Qed.
+Lemma plain_collides dns n : plain n = true -> collides dns n = false.
+Proof. intros H. unfold collides. rewrite (spec_clark_plain n H). reflexivity. Qed.
+Lemma plain_canon dns n : plain n = true -> canon dns n = n.
+Proof. intros H. unfold canon. rewrite (plain_collides dns n H). reflexivity. Qed.
+
+Lemma shape_cases k : skey_shape k = true ->
+  (exists ns n, k = clark (ns, n) /\ null ns = false /\ plain ns = true /\ plain n = true) \/ plain k = true.
+Proof.
+  unfold skey_shape. destruct (spec_clark k) as [[[ns|] n]|] eqn:E; [| |discriminate]; apply spec_clark_inv in E.
+  - rewrite !andb_true_iff, negb_true_iff. intros [[H1 H2] H3]. left. exists ns, n. subst k. auto.
+  - intros H. right. subst k. exact H.
+Qed.
+
+Lemma canon_eq_cases dns k x : skey_shape k = true -> canon dns k = x ->
+  (k = x /\ collides dns k = false) \/
+  (k = clark (dns, x) /\ collides dns k = true /\ null dns = false /\ plain dns = true /\ plain x = true).
+Proof.
+  intros Hs Hc. unfold canon in Hc. destruct (shape_cases k Hs) as [[ns [n [-> [Hn [Hp1 Hp2]]]]]|Hp].
+  - rewrite (clark_collides dns ns n Hp1), (clark_plain_of ns n Hp1) in Hc. rewrite (clark_collides dns ns n Hp1).
+    destruct (str_eqb dns ns) eqn:E.
+    + apply str_eqb_eq in E. subst. right. auto.
+    + left. auto.
+  - rewrite (plain_collides dns k Hp) in Hc |- *. left. auto.
+Qed.
+
+Lemma canon_ok dns k : skey_shape k = true -> skey_ok dns (canon dns k) = true.
+Proof.
+  intros Hs. unfold canon, skey_ok. destruct (shape_cases k Hs) as [[ns [n [-> [Hn [Hp1 Hp2]]]]]|Hp].
+  - rewrite (clark_collides dns ns n Hp1), (clark_plain_of ns n Hp1). destruct (str_eqb dns ns) eqn:E.
+    + unfold skey_shape. rewrite (spec_clark_plain n Hp2), Hp2, (plain_collides dns n Hp2). reflexivity.
+    + rewrite Hs, (clark_collides dns ns n Hp1), E. reflexivity.
+  - rewrite (plain_collides dns k Hp), Hs, (plain_collides dns k Hp). reflexivity.
+Qed.
+
+Lemma present_canon dns k : skey_shape k = true -> present dns (canon dns k) = present dns k.
+Proof.
+  intros Hs. unfold canon. destruct (shape_cases k Hs) as [[ns [n [-> [Hn [Hp1 Hp2]]]]]|Hp].
+  - rewrite (clark_collides dns ns n Hp1), (clark_plain_of ns n Hp1). destruct (str_eqb dns ns) eqn:E; [|reflexivity].
+    apply str_eqb_eq in E. subst. rewrite !present_spec, (spec_clark_plain n Hp2), (clark_spec ns n Hp1). reflexivity.
+  - rewrite (plain_collides dns k Hp). reflexivity.
+Qed.
+
 
 Lemma plainq_norm dns q : plain dns = true -> plainq q = true -> plainq (norm dns q) = true.
 Proof.
@@ -380,7 +448,7 @@ Qed.
 Record Wf (s : astate) (T : list oid) : Prop := mkWf {
   wf_nns : plain (st_node_ns s) = true;
   wf_dns : plain (st_dns s) = true;
-  wf_keys : Forall (fun k => skey_ok (st_dns s) k = true) (map fst (st_store s));
+  wf_st : SWf (st_dns s) (st_store s);
   wf_nodup : NoDup (map fst (st_store s));
   wf_cnodup : NoDup (map fst (st_cache s));
   wf_cache : forall q o, In (q, o) (st_cache s) -> nth_error (st_objs s) o = Some (Live q);
@@ -419,16 +487,19 @@ Proof. apply (nodup_gen Nat.eqb nat_eqb_eq nodupn). intros [|x r]; reflexivity. 
 
 Lemma sys_wf_iff y : sys_wf y = true <-> Wf (fst y) (snd y).
 Proof.
-  destruct y as [s T]. unfold sys_wf, attr_wf, store_shape, no_collision, cache_ok. cbn [fst snd].
+  destruct y as [s T]. unfold sys_wf, attr_wf, store_shape, no_double, cache_ok. cbn [fst snd].
   rewrite !andb_true_iff, !forallb_forall, nodupb_iff, nodupq_iff, nodupn_iff. split.
   - intros [[[[[[[H1 H2] H3] H4] H5] [H6 H7]] H8] H9]. constructor; try assumption.
-    + apply Forall_forall. intros k Hk. unfold skey_ok. rewrite (H3 k Hk), (H5 k Hk). reflexivity.
+    + split; [apply Forall_forall; exact H3|]. split; [exact H4|].
+      intros k Hk Hc Hp. specialize (H5 k Hk). rewrite Hc in H5. apply (ahas_in str_eqb str_eqb_eq) in Hp.
+      rewrite Hp in H5. discriminate.
     + intros q o Hin. specialize (H7 (q, o) Hin). cbn in H7.
       destruct (nth_error (st_objs s) o) as [[q'|]|]; try discriminate. apply qname_eqb_eq in H7. subst. reflexivity.
-  - intros [H1 H2 H3 H4 H5 H6 H7 H8]. rewrite Forall_forall in H3.
+  - intros [H1 H2 [H3 [H3' H3'']] H4 H5 H6 H7 H8]. rewrite Forall_forall in H3.
     repeat split; try assumption.
-    + intros k Hk. specialize (H3 k Hk). unfold skey_ok in H3. apply andb_true_iff in H3. apply H3.
-    + intros k Hk. specialize (H3 k Hk). unfold skey_ok in H3. apply andb_true_iff in H3. apply H3.
+    + intros k Hk. destruct (collides (st_dns s) k) eqn:Hc; [|reflexivity].
+      destruct (ahas str_eqb (st_store s) (plain_of k)) eqn:Hp; [|reflexivity].
+      apply (ahas_in str_eqb str_eqb_eq) in Hp. destruct (H3'' k Hk Hc Hp).
     + intros [q o] Hin. cbn. rewrite (H6 q o Hin). apply qname_eqb_refl.
 Qed.
 
@@ -479,21 +550,273 @@ Proof. unfold abs_store. rewrite !map_map. reflexivity. Qed.
 Lemma abs_store_length dns st : length (abs_store dns st) = length st.
 Proof. unfold abs_store. apply map_length. Qed.
 
-(* the same at the level of a well-formed state, for the key function that looks at the store *)
-Lemma skey_nc s T q : Wf s T -> plainq q = true -> skey s q = etree_key0 (st_dns s) q.
-Proof. intros W Hq. apply etree_key_nc; [apply (wf_keys s T W)|exact Hq]. Qed.
+Lemma etree_key_present dns k : skey_ok dns k = true -> etree_key0 dns (present dns k) = k.
+Proof.
+  unfold skey_ok, skey_shape, collides. rewrite present_spec.
+  destruct (spec_clark k) as [[[ns|] n]|] eqn:E; [| |discriminate]; apply spec_clark_inv in E; subst k.
+  - rewrite !andb_true_iff, !negb_true_iff. intros [[[Hn _] _] Hc]. unfold etree_key0, clark. cbn [fst snd].
+    rewrite Hn, Hc. reflexivity.
+  - intros _. unfold etree_key0. cbn [fst snd]. rewrite str_eqb_refl, andb_false_r. reflexivity.
+Qed.
+
+Section Keys.
+  Variables (dns : str) (st : list (str * str)).
+  Hypothesis Hdns : plain dns = true.
+
+  Lemma canon_key q : plainq q = true -> canon dns (etree_key dns st q) = etree_key0 dns q.
+  Proof.
+    destruct q as [ns n]. unfold plainq. cbn [fst snd]. rewrite andb_true_iff. intros [Hns Hn].
+    unfold etree_key, etree_key0. cbn [fst snd]. destruct (null ns) eqn:En; cbn [negb andb].
+    - destruct (negb (null dns) && negb (ahas str_eqb st n) && ahas str_eqb st (clark (dns, n)))%bool.
+      + unfold canon. rewrite (clark_collides dns dns n Hdns), str_eqb_refl. apply clark_plain_of. exact Hdns.
+      + apply plain_canon. exact Hn.
+    - destruct (str_eqb dns ns) eqn:Ed; cbn [negb orb].
+      + destruct (ahas str_eqb st (clark (ns, n))).
+        * unfold canon. rewrite (clark_collides dns ns n Hns), Ed. apply clark_plain_of. exact Hns.
+        * apply plain_canon. exact Hn.
+      + unfold canon. rewrite (clark_collides dns ns n Hns), Ed. reflexivity.
+  Qed.
+
+  Lemma key_shape q : plainq q = true -> skey_shape (etree_key dns st q) = true.
+  Proof.
+    destruct q as [ns n]. unfold plainq. cbn [fst snd]. rewrite andb_true_iff. intros [Hns Hn].
+    assert (forall a, plain a = true -> null a = false -> skey_shape (clark (a, n)) = true) as Hc.
+    { intros a Ha Hna. unfold skey_shape. rewrite (clark_spec a n Ha), Hna, Ha, Hn. reflexivity. }
+    assert (skey_shape n = true) as Hpn by (unfold skey_shape; rewrite (spec_clark_plain n Hn); exact Hn).
+    unfold etree_key. cbn [fst snd]. destruct (null ns) eqn:En; cbn [negb andb].
+    - destruct (null dns) eqn:Ednull; cbn [negb andb]; [exact Hpn|].
+      destruct (negb (ahas str_eqb st n) && ahas str_eqb st (clark (dns, n)))%bool; [apply Hc; assumption|exact Hpn].
+    - destruct (negb (str_eqb dns ns) || ahas str_eqb st (clark (ns, n)))%bool; [apply Hc; assumption|exact Hpn].
+  Qed.
+
+  Hypothesis Hst : SWf dns st.
+
+  Lemma in_ahas k : In k (map fst st) <-> ahas str_eqb st k = true.
+  Proof. symmetry. apply (ahas_in str_eqb str_eqb_eq). Qed.
+
+  (* the key chosen for q is the store key that is, up to `canon`, the plain key of q - if there is one *)
+  Lemma key_choice q k :
+    plainq q = true -> In k (map fst st) -> canon dns k = etree_key0 dns q -> etree_key dns st q = k.
+  Proof.
+    destruct Hst as [Hsh [_ Hnd]]. rewrite Forall_forall in Hsh.
+    destruct q as [ns n]. unfold plainq. cbn [fst snd]. rewrite andb_true_iff. intros [Hns Hn] Hin Hc.
+    destruct (canon_eq_cases dns k _ (Hsh k Hin) Hc) as [[Hk Hcol]|[Hk [Hcol [Hnd0 [_ Hpx]]]]];
+      unfold etree_key, etree_key0 in *; cbn [fst snd] in *.
+    - (* k is the plain key itself *)
+      destruct (null ns) eqn:En; cbn [negb andb] in *.
+      + subst k. apply in_ahas in Hin. rewrite Hin. cbn [negb andb]. rewrite andb_false_r. reflexivity.
+      + destruct (str_eqb dns ns) eqn:Ed; cbn [negb orb] in *.
+        * subst k. destruct (ahas str_eqb st (clark (ns, n))) eqn:Eh; [|reflexivity]. exfalso.
+          apply in_ahas in Eh. apply (Hnd _ Eh).
+          -- rewrite (clark_collides dns ns n Hns). exact Ed.
+          -- rewrite (clark_plain_of ns n Hns). exact Hin.
+        * symmetry. exact Hk.
+    - (* k = {dns}x *)
+      destruct (null ns) eqn:En; cbn [negb andb] in *.
+      + subst k. rewrite Hnd0. cbn [negb andb].
+        assert (ahas str_eqb st n = false) as Hn0.
+        { destruct (ahas str_eqb st n) eqn:E; [|reflexivity]. exfalso. apply in_ahas in E. apply (Hnd _ Hin Hcol).
+          rewrite (clark_plain_of dns n Hdns). exact E. }
+        apply in_ahas in Hin. rewrite Hn0, Hin. reflexivity.
+      + destruct (str_eqb dns ns) eqn:Ed; cbn [negb orb] in *.
+        * apply str_eqb_eq in Ed. subst ns k. apply in_ahas in Hin. rewrite Hin. reflexivity.
+        * exfalso. apply (plain_not_clark _ (ns, n) Hpx). reflexivity.
+  Qed.
+
+  Lemma key_absent q :
+    plainq q = true -> (forall k, In k (map fst st) -> canon dns k <> etree_key0 dns q) ->
+    etree_key dns st q = etree_key0 dns q.
+  Proof.
+    destruct q as [ns n]. unfold plainq. cbn [fst snd]. rewrite andb_true_iff. intros [Hns Hn] Hno.
+    unfold etree_key, etree_key0 in *. cbn [fst snd] in *. destruct (null ns) eqn:En; cbn [negb andb] in *.
+    - destruct (negb (null dns) && negb (ahas str_eqb st n) && ahas str_eqb st (clark (dns, n)))%bool eqn:E; [|reflexivity].
+      exfalso. rewrite !andb_true_iff in E. destruct E as [_ E]. apply in_ahas in E. apply (Hno _ E).
+      unfold canon. rewrite (clark_collides dns dns n Hdns), str_eqb_refl. apply clark_plain_of. exact Hdns.
+    - destruct (str_eqb dns ns) eqn:Ed; cbn [negb orb] in *; [|reflexivity].
+      destruct (ahas str_eqb st (clark (ns, n))) eqn:E; [|reflexivity].
+      exfalso. apply in_ahas in E. apply (Hno _ E).
+      unfold canon. rewrite (clark_collides dns ns n Hns), Ed. apply clark_plain_of. exact Hns.
+  Qed.
+
+  Lemma canon_inj k k' : In k (map fst st) -> In k' (map fst st) -> canon dns k = canon dns k' -> k = k'.
+  Proof.
+    destruct Hst as [Hsh [_ Hnd]]. rewrite Forall_forall in Hsh. intros Hi Hi' Hc.
+    destruct (canon_eq_cases dns k _ (Hsh k Hi) Hc) as [[Hk Hcol]|[Hk [Hcol [_ [_ Hpx]]]]].
+    - (* k = canon k' *)
+      destruct (canon_eq_cases dns k' _ (Hsh k' Hi') eq_refl) as [[Hk' _]|[Hk' [Hcol' _]]]; [congruence|].
+      exfalso. apply (Hnd _ Hi' Hcol'). unfold canon in Hk. rewrite Hcol' in Hk. rewrite <- Hk. exact Hi.
+    - destruct (canon_eq_cases dns k' _ (Hsh k' Hi') eq_refl) as [[Hk' Hcol']|[Hk' _]]; [|congruence].
+      exfalso. apply (Hnd _ Hi Hcol). unfold canon in Hc. rewrite Hcol, Hcol' in Hc. rewrite Hc. exact Hi'.
+  Qed.
+
+  (* `present` is injective on the store keys together with the key chosen for q *)
+  Lemma dom_inj q : plainq q = true ->
+    forall a b, In a (etree_key dns st q :: map fst st) -> In b (etree_key dns st q :: map fst st) ->
+                present dns a = present dns b -> a = b.
+  Proof.
+    intros Hq a b Ha Hb Hp. destruct Hst as [Hsh _]. rewrite Forall_forall in Hsh.
+    assert (forall x, In x (etree_key dns st q :: map fst st) -> skey_shape x = true) as Hshape.
+    { intros x [<-|Hx]; [apply key_shape; exact Hq|exact (Hsh x Hx)]. }
+    assert (canon dns a = canon dns b) as Hc.
+    { apply (present_inj dns); [apply canon_ok; auto|apply canon_ok; auto|].
+      rewrite !present_canon by auto. exact Hp. }
+    destruct Ha as [<-|Ha], Hb as [<-|Hb]; [reflexivity| | |apply canon_inj; assumption].
+    - apply key_choice; [exact Hq|exact Hb|]. rewrite <- Hc. apply canon_key. exact Hq.
+    - symmetry. apply key_choice; [exact Hq|exact Ha|]. rewrite Hc. apply canon_key. exact Hq.
+  Qed.
+
+  Lemma present_key q : plainq q = true -> present dns (etree_key dns st q) = norm dns q.
+  Proof.
+    intros Hq. rewrite <- (present_canon dns _ (key_shape q Hq)), (canon_key q Hq). apply present_etree_key. exact Hq.
+  Qed.
+
+  Let P q := fun a => In a (etree_key dns st q :: map fst st).
+  Lemma P_keys q : Forall (P q) (map fst st).
+  Proof. apply Forall_forall. intros a Ha. right. exact Ha. Qed.
+
+  Lemma abs_get_st q : plainq q = true ->
+    dget (abs_store dns st) (norm dns q) = aget str_eqb st (etree_key dns st q).
+  Proof.
+    intros Hq. rewrite <- (present_key q Hq). unfold dget. rewrite abs_store_mapk.
+    apply (mapk_aget str_eqb qname_eqb (present dns) (P q) str_eqb_eq qname_eqb_eq (dom_inj q Hq));
+      [apply P_keys|left; reflexivity].
+  Qed.
+  Lemma abs_has_st q : plainq q = true ->
+    dhas (abs_store dns st) (norm dns q) = ahas str_eqb st (etree_key dns st q).
+  Proof. intros Hq. unfold dhas, ahas. fold (dget (abs_store dns st) (norm dns q)). rewrite (abs_get_st q Hq). reflexivity. Qed.
+  Lemma abs_set_st q v : plainq q = true ->
+    abs_store dns (aset str_eqb st (etree_key dns st q) v) = dset (abs_store dns st) (norm dns q) v.
+  Proof.
+    intros Hq. rewrite <- (present_key q Hq). unfold dset. rewrite !abs_store_mapk.
+    apply (mapk_aset str_eqb qname_eqb (present dns) (P q) str_eqb_eq qname_eqb_eq (dom_inj q Hq));
+      [apply P_keys|left; reflexivity].
+  Qed.
+  Lemma abs_del_st q : plainq q = true ->
+    abs_store dns (adel str_eqb st (etree_key dns st q)) = ddel (abs_store dns st) (norm dns q).
+  Proof.
+    intros Hq. rewrite <- (present_key q Hq). unfold ddel. rewrite !abs_store_mapk.
+    apply (mapk_adel str_eqb qname_eqb (present dns) (P q) str_eqb_eq qname_eqb_eq (dom_inj q Hq));
+      [apply P_keys|left; reflexivity].
+  Qed.
+
+  Lemma abs_nodup_st : NoDup (map fst (abs_store dns st)).
+  Proof.
+    rewrite abs_store_mapk.
+    apply (mapk_nodup (present dns) (fun a => In a (map fst st))).
+    - intros a b Ha Hb Hp. apply (dom_inj ([], []) eq_refl a b); [right; exact Ha|right; exact Hb|exact Hp].
+    - apply Forall_forall. auto.
+    - apply Hst.
+  Qed.
+
+  Lemma key_norm_iff q q' : plainq q = true -> plainq q' = true ->
+    (etree_key dns st q = etree_key dns st q' <-> norm dns q = norm dns q').
+  Proof.
+    intros Hq Hq'. split.
+    - intros H. rewrite <- (present_key q Hq), <- (present_key q' Hq'), H. reflexivity.
+    - intros H. apply (etree_key_norm_iff dns q q' Hq Hq') in H.
+      destruct (existsb (fun k => str_eqb (canon dns k) (etree_key0 dns q)) (map fst st)) eqn:E.
+      + apply existsb_exists in E. destruct E as [k [Hk Hc]]. apply str_eqb_eq in Hc.
+        rewrite (key_choice q k Hq Hk Hc). symmetry. apply key_choice; [exact Hq'|exact Hk|]. rewrite Hc. exact H.
+      + assert (forall k, In k (map fst st) -> canon dns k <> etree_key0 dns q) as Hno.
+        { intros k Hk Hc. assert (existsb (fun k => str_eqb (canon dns k) (etree_key0 dns q)) (map fst st) = true) as Ht.
+          { apply existsb_exists. exists k. split; [exact Hk|]. apply str_eqb_eq. exact Hc. }
+          rewrite Ht in E. discriminate. }
+        rewrite (key_absent q Hq Hno). rewrite H in Hno. rewrite (key_absent q' Hq' Hno). exact H.
+  Qed.
+
+  (* a key of the store is reached by the name it is presented under *)
+  Lemma key_of_present k : In k (map fst st) -> etree_key dns st (present dns k) = k.
+  Proof.
+    intros Hk. destruct Hst as [Hsh _]. rewrite Forall_forall in Hsh. pose proof (Hsh k Hk) as Hs.
+    assert (plainq (present dns k) = true) as Hpq.
+    { rewrite <- (present_canon dns k Hs). apply plainq_present0; [exact Hdns|apply canon_ok; exact Hs]. }
+    apply key_choice; [exact Hpq|exact Hk|].
+    rewrite <- (present_canon dns k Hs). symmetry. apply etree_key_present. apply canon_ok. exact Hs.
+  Qed.
+
+  Lemma plainq_present_in k : In k (map fst st) -> plainq (present dns k) = true.
+  Proof.
+    intros Hk. destruct Hst as [Hsh _]. rewrite Forall_forall in Hsh. pose proof (Hsh k Hk) as Hs.
+    rewrite <- (present_canon dns k Hs). apply plainq_present0; [exact Hdns|apply canon_ok; exact Hs].
+  Qed.
+  Lemma norm_present_in k : In k (map fst st) -> norm dns (present dns k) = present dns k.
+  Proof.
+    intros Hk. destruct Hst as [Hsh _]. rewrite Forall_forall in Hsh. pose proof (Hsh k Hk) as Hs.
+    rewrite <- (present_canon dns k Hs). apply norm_present0. apply canon_ok. exact Hs.
+  Qed.
+  Lemma dget_present k : In k (map fst st) -> dget (abs_store dns st) (present dns k) = aget str_eqb st k.
+  Proof.
+    intros Hk. rewrite <- (norm_present_in k Hk). rewrite (abs_get_st _ (plainq_present_in k Hk)).
+    rewrite (key_of_present k Hk). reflexivity.
+  Qed.
+
+  Lemma SWf_set q v : plainq q = true -> SWf dns (aset str_eqb st (etree_key dns st q) v).
+  Proof.
+    intros Hq. pose proof Hst as [Hsh [Hnd Hdb]]. split; [|split].
+    - apply Forall_forall. intros k Hk. apply (in_keys_aset str_eqb str_eqb_eq) in Hk. destruct Hk as [Hk| ->].
+      + rewrite Forall_forall in Hsh. exact (Hsh k Hk).
+      + apply key_shape. exact Hq.
+    - apply (nodup_aset str_eqb str_eqb_eq). exact Hnd.
+    - intros k Hk Hcol Hpl. rewrite Forall_forall in Hsh.
+      apply (in_keys_aset str_eqb str_eqb_eq) in Hk. apply (in_keys_aset str_eqb str_eqb_eq) in Hpl.
+      assert (forall x, In x (map fst st) -> canon dns x = etree_key0 dns q -> In (etree_key dns st q) (map fst st)) as Hold.
+      { intros x Hx Hc. rewrite (key_choice q x Hq Hx Hc). exact Hx. }
+      pose proof (canon_key q Hq) as Hck.
+      destruct Hk as [Hk|Hk], Hpl as [Hpl|Hpl].
+      + exact (Hdb k Hk Hcol Hpl).
+      + (* the plain twin of an old colliding key would be the new key *)
+        assert (In (etree_key dns st q) (map fst st)) as Hin.
+        { apply (Hold k Hk). unfold canon. rewrite Hcol, Hpl. rewrite <- Hck. symmetry. apply plain_canon.
+          rewrite <- Hpl. destruct (shape_cases k (Hsh k Hk)) as [[ns [n [-> [_ [Hp1 Hp2]]]]]|Hp].
+          - rewrite (clark_plain_of ns n Hp1). exact Hp2.
+          - rewrite (plain_collides dns k Hp) in Hcol. discriminate. }
+        rewrite <- Hpl in Hin. exact (Hdb k Hk Hcol Hin).
+      + (* the new key collides and its plain twin is old *)
+        subst k.
+        assert (In (etree_key dns st q) (map fst st)) as Hin.
+        { apply (Hold _ Hpl). rewrite <- Hck. unfold canon at 2. rewrite Hcol.
+          apply plain_canon. destruct (shape_cases _ (key_shape q Hq)) as [[ns [n [He [_ [Hp1 Hp2]]]]]|Hp].
+          - rewrite He, (clark_plain_of ns n Hp1). exact Hp2.
+          - rewrite (plain_collides dns _ Hp) in Hcol. discriminate. }
+        exact (Hdb _ Hin Hcol Hpl).
+      + subst k. destruct (shape_cases _ (key_shape q Hq)) as [[ns [n [He [_ [Hp1 Hp2]]]]]|Hp].
+        * rewrite He, (clark_plain_of ns n Hp1) in Hpl. apply (plain_not_clark n (ns, n) Hp2). exact Hpl.
+        * rewrite (plain_collides dns _ Hp) in Hcol. discriminate.
+  Qed.
+
+  Lemma SWf_del k : SWf dns (adel str_eqb st k).
+  Proof.
+    destruct Hst as [Hsh [Hnd Hdb]]. split; [|split].
+    - apply Forall_forall. intros k' Hk. apply in_keys_adel in Hk. rewrite Forall_forall in Hsh. exact (Hsh k' Hk).
+    - apply (nodup_adel str_eqb). exact Hnd.
+    - intros k' Hk Hcol Hpl. apply in_keys_adel in Hk. apply in_keys_adel in Hpl. exact (Hdb k' Hk Hcol Hpl).
+  Qed.
+End Keys.
+
+(* the same at the level of a well-formed state *)
 Lemma abs_get_s s T q : Wf s T -> plainq q = true ->
   dget (abs_store (st_dns s) (st_store s)) (norm (st_dns s) q) = aget str_eqb (st_store s) (skey s q).
-Proof. intros W Hq. rewrite (skey_nc s T q W Hq). apply abs_get; [apply (wf_keys s T W)|exact Hq]. Qed.
+Proof. intros W Hq. apply abs_get_st; [apply (wf_dns s T W)|apply (wf_st s T W)|exact Hq]. Qed.
 Lemma abs_set_s s T q v : Wf s T -> plainq q = true ->
   abs_store (st_dns s) (aset str_eqb (st_store s) (skey s q) v) = dset (abs_store (st_dns s) (st_store s)) (norm (st_dns s) q) v.
-Proof. intros W Hq. rewrite (skey_nc s T q W Hq). apply abs_set; [apply (wf_keys s T W)|exact Hq]. Qed.
+Proof. intros W Hq. apply abs_set_st; [apply (wf_dns s T W)|apply (wf_st s T W)|exact Hq]. Qed.
 Lemma abs_del_s s T q : Wf s T -> plainq q = true ->
   abs_store (st_dns s) (adel str_eqb (st_store s) (skey s q)) = ddel (abs_store (st_dns s) (st_store s)) (norm (st_dns s) q).
-Proof. intros W Hq. rewrite (skey_nc s T q W Hq). apply abs_del; [apply (wf_keys s T W)|exact Hq]. Qed.
+Proof. intros W Hq. apply abs_del_st; [apply (wf_dns s T W)|apply (wf_st s T W)|exact Hq]. Qed.
 Lemma skey_norm_iff s T q q' : Wf s T -> plainq q = true -> plainq q' = true ->
   (skey s q = skey s q' <-> norm (st_dns s) q = norm (st_dns s) q').
-Proof. intros W H H'. rewrite (skey_nc s T q W H), (skey_nc s T q' W H'). apply etree_key_norm_iff; assumption. Qed.
+Proof. intros W H H'. apply key_norm_iff; [apply (wf_dns s T W)|apply (wf_st s T W)|exact H|exact H']. Qed.
+(* membership in the store, in terms of the dictionary *)
+Lemma contains_dict dns st s q : st_dns s = dns -> st_store s = st -> plain dns = true -> SWf dns st -> plainq q = true ->
+  contains_q s q = dhas (abs_store dns st) (norm dns q).
+Proof. intros <- <- Hd Hs Hq. unfold contains_q, skey. symmetry. apply abs_has_st; assumption. Qed.
+Lemma dhas_dset d k v k' : dhas d k' = true -> dhas (dset d k v) k' = true.
+Proof.
+  unfold dhas, dset. intros H. apply (ahas_in qname_eqb qname_eqb_eq). apply (in_keys_aset qname_eqb qname_eqb_eq). left.
+  apply (ahas_in qname_eqb qname_eqb_eq). exact H.
+Qed.
+Lemma dhas_ddel d k k' : k <> k' -> dhas (ddel d k) k' = dhas d k'.
+Proof. intros H. unfold dhas, ddel, ahas. rewrite (aget_adel_other qname_eqb qname_eqb_eq) by exact H. reflexivity. Qed.
 
 (* ------------------------------------------------------------------------------------------ *)
 (* objects and views                                                                            *)
@@ -597,16 +920,17 @@ Qed.
 Lemma wf_store_set s T q v :
   Wf s T -> plainq q = true -> Wf (with_store s (aset str_eqb (st_store s) (skey s q) v)) T.
 Proof.
-  intros W Hq. rewrite (skey_nc s T q W Hq).
-  pose proof (keys_ok_set (st_dns s) (st_store s) q (wf_keys s T W) Hq v) as Hk'.
+  intros W Hq.
+  pose proof (SWf_set (st_dns s) (st_store s) (wf_dns s T W) (wf_st s T W) q v Hq) as Hs'.
+  pose proof (abs_set_s s T q v W Hq) as Hab.
   destruct W as [H1 H2 H3 H4 H5 H6 H7 H8]. constructor; cbn; try assumption.
   - apply (nodup_aset str_eqb str_eqb_eq). exact H4.
   - intros o Ho. specialize (H8 o Ho). unfold view_ok in *. cbn.
     destruct (nth_error (st_objs s) o) as [[q'|]|]; try assumption.
     apply andb_true_iff in H8. destruct H8 as [Ha Hb]. rewrite Ha. cbn.
-    unfold contains_q, skey in *. cbn [st_store st_dns with_store].
-    rewrite (etree_key_nc _ _ q' Hk' Ha). rewrite (etree_key_nc _ _ q' H3 Ha) in Hb.
-    apply contains_mono. exact Hb.
+    rewrite (contains_dict (st_dns s) (aset str_eqb (st_store s) (skey s q) v)
+               (with_store s (aset str_eqb (st_store s) (skey s q) v)) q' eq_refl eq_refl H2 Hs' Ha). rewrite Hab.
+    apply dhas_dset. rewrite <- (contains_dict (st_dns s) (st_store s) s q' eq_refl eq_refl H2 H3 Ha). exact Hb.
 Qed.
 
 Lemma wf_new_cached s T q :
@@ -784,8 +1108,8 @@ Lemma iter_good s T :
 Proof.
   intros W. unfold iter_keys. rewrite abs_store_keys.
   assert (forallb decon_ok (map fst (st_store s)) = true) as H.
-  { apply forallb_forall. intros k Hk. pose proof (wf_keys s T W) as Hf. rewrite Forall_forall in Hf.
-    apply (skey_ok_decon (st_dns s)). exact (Hf k Hk). }
+  { apply forallb_forall. intros k Hk. destruct (wf_st s T W) as [Hf _]. rewrite Forall_forall in Hf.
+    apply shape_decon. exact (Hf k Hk). }
   rewrite H. reflexivity.
 Qed.
 
@@ -935,12 +1259,13 @@ Lemma kill_good s1 T q c v (but : option oid) :
   abs_store (st_dns s') (st_store s') = ddel (abs_store (st_dns s1) (st_store s1)) (norm (st_dns s1) q) /\
   absv s' T = kill_views (norm (st_dns s1) q) v (absv s1 T).
 Proof.
-  intros W Hq Hc Hv Hst s'. subst s'. unfold kill_state. rewrite (skey_nc s1 T q W Hq) in Hv |- *.
+  intros W Hq Hc Hv Hst s'. subst s'. unfold kill_state.
   pose proof (cache_live s1 T q c W Hc) as Hl.
   assert (c < length (st_objs s1)) as Hlt by (apply nth_error_Some; rewrite Hl; discriminate).
+  pose proof (SWf_del (st_dns s1) (st_store s1) (wf_st s1 T W) (skey s1 q)) as Hs'.
+  pose proof (abs_del_s s1 T q W Hq) as Hab.
   split; [|split].
   - destruct W as [H1 H2 H3 H4 H5 H6 H7 H8]. constructor; cbn; try assumption.
-    + apply keys_ok_del. exact H3.
     + apply (nodup_adel str_eqb). exact H4.
     + apply (nodup_adel qname_eqb). exact H5.
     + intros q' o Hin. apply (in_adel_neq _ _ _ H5) in Hin. destruct Hin as [Hin Hne]. cbn in Hne.
@@ -952,12 +1277,14 @@ Proof.
       * rewrite nth_error_set_nth_other by exact Hne.
         destruct (nth_error (st_objs s1) o) as [[q'|]|] eqn:Eo; try assumption.
         apply andb_true_iff in Hvo. destruct Hvo as [Hp Hco]. rewrite Hp. cbn [andb].
-        unfold contains_q, skey, ahas in *. cbn [st_store st_dns].
-        rewrite (etree_key_nc _ _ q' (keys_ok_del _ _ H3 _) Hp). rewrite (etree_key_nc _ _ q' H3 Hp) in Hco.
-        rewrite (aget_adel_other str_eqb str_eqb_eq); [exact Hco|].
-        intros Hk. apply (etree_key_norm_iff (st_dns s1) q q' Hq Hp) in Hk.
-        apply Hne. symmetry. apply (Hst o q' Ho Eo). symmetry. exact Hk.
-  - cbn. apply abs_del; [apply (wf_keys s1 T W)|exact Hq].
+        rewrite (contains_dict (st_dns s1) (adel str_eqb (st_store s1) (skey s1 q))
+                   (mkA (adel str_eqb (st_store s1) (skey s1 q)) (st_dns s1) (st_node_ns s1)
+                        (adel qname_eqb (st_cache s1) q) (set_nth (st_objs s1) c (Dead v q)))
+                   q' eq_refl eq_refl H2 Hs' Hp).
+        rewrite Hab, dhas_ddel.
+        -- rewrite <- (contains_dict (st_dns s1) (st_store s1) s1 q' eq_refl eq_refl H2 H3 Hp). exact Hco.
+        -- intros Hk. apply Hne. symmetry. apply (Hst o q' Ho Eo). symmetry. exact Hk.
+  - cbn. exact Hab.
   - rewrite kill_views_map. unfold absv. rewrite map_map. cbn [st_dns].
     apply map_ext_in. intros o Ho. unfold obj_at. cbn [st_objs].
     rewrite (nth_set_nth _ c o _ _ Hlt).
@@ -1126,12 +1453,9 @@ Lemma move_good2 s1 T i o c q q' v :
   absv F T = set_nth (kill_views (norm (st_dns s1) q) v (absv s1 T)) i (VLive (norm (st_dns s1) q')).
 Proof.
   intros W Hq Hq' Hi Hlo Hc Hv Hc' Hne Hst F. subst F.
-  unfold contains_q in Hc'. rewrite (skey_nc s1 T q W Hq) in Hv |- *. rewrite (skey_nc s1 T q' W Hq') in Hc'.
   pose proof (cache_live s1 T q c W Hc) as Hlc.
   assert (c < length (st_objs s1)) as Hltc by (apply nth_error_Some; rewrite Hlc; discriminate).
   assert (o < length (st_objs s1)) as Hlto by (apply nth_error_Some; rewrite Hlo; discriminate).
-  assert (etree_key0 (st_dns s1) q <> etree_key0 (st_dns s1) q') as Hk.
-  { intros H. apply (etree_key_norm_iff (st_dns s1) q q' Hq Hq') in H. contradiction. }
   set (objsF := set_nth (set_nth (st_objs s1) c (Dead v q)) o (Live q')).
   assert (nth_error objsF o = Some (Live q')) as HFo.
   { unfold objsF. apply nth_error_set_nth_same. rewrite length_set_nth. exact Hlto. }
@@ -1140,10 +1464,20 @@ Proof.
     apply nth_error_set_nth_other. congruence. }
   assert (c <> o -> nth_error objsF c = Some (Dead v q)) as HFc.
   { intros H. unfold objsF. rewrite nth_error_set_nth_other by congruence. apply nth_error_set_nth_same. exact Hltc. }
-  pose proof (wf_keys s1 T W) as H3.
-  pose proof (keys_ok_del (st_dns s1) (st_store s1) H3 (etree_key0 (st_dns s1) q)) as H3'.
+  pose proof (SWf_del (st_dns s1) (st_store s1) (wf_st s1 T W) (skey s1 q)) as Hs'.
+  pose proof (abs_del_s s1 T q W Hq) as Hab.
+  assert (forall q0, plainq q0 = true -> norm (st_dns s1) q <> norm (st_dns s1) q0 -> contains_q s1 q0 = true ->
+            contains_q (mkA (adel str_eqb (st_store s1) (skey s1 q)) (st_dns s1) (st_node_ns s1)
+                            (aset qname_eqb (adel qname_eqb (st_cache s1) q) q' o) objsF) q0 = true) as Hkeep.
+  { intros q0 Hp0 Hn0 Hc0.
+    rewrite (contains_dict (st_dns s1) (adel str_eqb (st_store s1) (skey s1 q))
+               (mkA (adel str_eqb (st_store s1) (skey s1 q)) (st_dns s1) (st_node_ns s1)
+                    (aset qname_eqb (adel qname_eqb (st_cache s1) q) q' o) objsF)
+               q0 eq_refl eq_refl (wf_dns s1 T W) Hs' Hp0).
+    rewrite Hab, dhas_ddel by exact Hn0.
+    rewrite <- (contains_dict (st_dns s1) (st_store s1) s1 q0 eq_refl eq_refl (wf_dns s1 T W) (wf_st s1 T W) Hp0). exact Hc0. }
   split; [|split].
-  - destruct W as [H1 H2 _ H4 H5 H6 H7 H8]. constructor; cbn [st_store st_dns st_node_ns st_cache st_objs]; try assumption.
+  - destruct W as [H1 H2 H3 H4 H5 H6 H7 H8]. constructor; cbn [st_store st_dns st_node_ns st_cache st_objs]; try assumption.
     + apply (nodup_adel str_eqb). exact H4.
     + apply (nodup_aset qname_eqb qname_eqb_eq). apply (nodup_adel qname_eqb). exact H5.
     + intros q'' x Hin. apply in_aset_inv in Hin. destruct Hin as [Hin|[Hin|[w [Hin [Hw He]]]]].
@@ -1155,21 +1489,17 @@ Proof.
       * cbn in Hw, He. subst x. apply qname_eqb_eq in He. subst q''. exact HFo.
     + intros t Ht. pose proof (H8 t Ht) as Hvt. unfold view_ok in *. cbn [st_objs].
       destruct (Nat.eq_dec t o) as [->|Hnto].
-      * rewrite HFo, Hq'. cbn [andb]. unfold contains_q, skey, ahas in *. cbn [st_store st_dns].
-        rewrite (etree_key_nc _ _ q' H3' Hq'). rewrite (aget_adel_other str_eqb str_eqb_eq); [exact Hc'|exact Hk].
+      * rewrite HFo, Hq'. cbn [andb]. apply Hkeep; [exact Hq'|exact Hne|exact Hc'].
       * destruct (Nat.eq_dec t c) as [->|Hntc]; [rewrite (HFc Hnto); reflexivity|].
         rewrite (HFt t Hnto Hntc).
         destruct (nth_error (st_objs s1) t) as [[q''|]|] eqn:Et; try assumption.
         apply andb_true_iff in Hvt. destruct Hvt as [Hp Hct]. rewrite Hp. cbn [andb].
-        unfold contains_q, skey, ahas in *. cbn [st_store st_dns].
-        rewrite (etree_key_nc _ _ q'' H3' Hp). rewrite (etree_key_nc _ _ q'' H3 Hp) in Hct.
-        rewrite (aget_adel_other str_eqb str_eqb_eq); [exact Hct|].
-        intros Hkk. apply (etree_key_norm_iff (st_dns s1) q q'' Hq Hp) in Hkk.
-        destruct (Hst t q'' Ht Et (eq_sym Hkk)); contradiction.
-  - cbn. apply abs_del; [exact H3|exact Hq].
+        apply Hkeep; [exact Hp| |exact Hct].
+        intros Hkk. destruct (Hst t q'' Ht Et (eq_sym Hkk)); contradiction.
+  - cbn. exact Hab.
   - pose proof (wf_T s1 T W) as ND.
     set (F0 := mkA (st_store s1) (st_dns s1) (st_node_ns s1) (st_cache s1) (set_nth (st_objs s1) c (Dead v q))).
-    rewrite (absv_set_nth F0 (mkA (adel str_eqb (st_store s1) (etree_key0 (st_dns s1) q)) (st_dns s1) (st_node_ns s1)
+    rewrite (absv_set_nth F0 (mkA (adel str_eqb (st_store s1) (skey s1 q)) (st_dns s1) (st_node_ns s1)
                                   (aset qname_eqb (adel qname_eqb (st_cache s1) q) q' o) objsF)
                T i o (Live q') ND Hi); [|cbn; rewrite length_set_nth; exact Hlto|reflexivity|reflexivity].
     cbn [abs_obj st_dns F0]. apply set_nth_ext.
@@ -1248,14 +1578,14 @@ Proof.
   assert (absv s1 T = absv s T) as Eav by (apply (absv_same s s1 T e1 W Ed Eo)).
   assert (abs_store (st_dns s1) (st_store s1) = dset (abs_store (st_dns s) (st_store s)) (norm (st_dns s) q') v) as Eas.
   { rewrite !abs_sys_eq in Hab1. apply (f_equal d_dict) in Hab1. exact Hab1. }
-  assert (skey s1 q = skey s q) as Ek1.
-  { rewrite (skey_nc s1 T q W1 Hq), (skey_nc s T q W Hq), Ed. reflexivity. }
-  assert (skey s1 q' = skey s q') as Ek1'.
-  { rewrite (skey_nc s1 T q' W1 Hq'), (skey_nc s T q' W Hq'), Ed. reflexivity. }
+  assert (norm (st_dns s) q' <> norm (st_dns s) q) as Hne' by (intros H; apply Hne; symmetry; exact H).
   assert (aget str_eqb (st_store s1) (skey s1 q) = Some v) as Hv1.
-  { rewrite Ek1, Es. rewrite (aget_aset_other str_eqb str_eqb_eq); [exact Hv|exact Hk]. }
+  { rewrite <- (abs_get_s s1 T q W1 Hq), Eas, Ed. unfold dget, dset.
+    rewrite (aget_aset_other qname_eqb qname_eqb_eq) by exact Hne'.
+    fold (dget (abs_store (st_dns s) (st_store s)) (norm (st_dns s) q)). rewrite (abs_get_s s T q W Hq). exact Hv. }
   assert (contains_q s1 q' = true) as Hc1'.
-  { unfold contains_q, ahas. rewrite Ek1', Es, (aget_aset_same str_eqb str_eqb_eq). reflexivity. }
+  { unfold contains_q, ahas. rewrite <- (abs_get_s s1 T q' W1 Hq'), Eas, Ed. unfold dget, dset.
+    rewrite (aget_aset_same qname_eqb qname_eqb_eq). reflexivity. }
   assert (contains_q s1 q = true) as Hc1 by (unfold contains_q, ahas; rewrite Hv1; reflexivity).
   destruct (delitem_eq s1 T q W1 Hq Hc1) as [s2 [c [v' [Hg [W2 [Hs2 [Hd2 [Hn2 [[e2 He2] [Hc2 [Hu2 [Hf2 [Hv2 Hdel]]]]]]]]]]]]].
   rewrite Hdel. rewrite Hv1 in Hv2. inversion Hv2. subst v'.
@@ -1505,11 +1835,13 @@ Lemma astep_resolve s a1 a2 :
 Proof. intros H. cbn [astep]. unfold with_q. rewrite H. repeat split. Qed.
 
 (* "no namespace" and the default namespace in scope reach the same store entry *)
-Lemma alias_same_entry dns (st : list (str * str)) name :
-  ahas str_eqb st (clark (dns, name)) = false -> etree_key dns st ([], name) = etree_key dns st (dns, name).
+Lemma alias_same_entry dns st name :
+  plain dns = true -> SWf dns st -> plain name = true -> etree_key dns st ([], name) = etree_key dns st (dns, name).
 Proof.
-  intros H. unfold etree_key. cbn [fst snd null negb andb]. rewrite H, str_eqb_refl. cbn [negb orb].
-  rewrite andb_false_r. reflexivity.
+  intros Hd Hs Hn. apply (key_norm_iff dns st Hd Hs).
+  - unfold plainq. cbn [fst snd]. exact Hn.
+  - unfold plainq. cbn [fst snd]. rewrite Hd, Hn. reflexivity.
+  - unfold norm. cbn [fst snd null]. destruct (null dns); reflexivity.
 Qed.
 
 (* ------------------------------------------------------------------------------------------ *)
@@ -1551,69 +1883,33 @@ Qed.
 
 (* ------------------------------------------------------------------------------------------ *)
 (* equality of two attribute collections                                                        *)
-Lemma etree_key_present dns k : skey_ok dns k = true -> etree_key0 dns (present dns k) = k.
-Proof.
-  unfold skey_ok, skey_shape, collides. rewrite present_spec.
-  destruct (spec_clark k) as [[[ns|] n]|] eqn:E; [| |discriminate]; apply spec_clark_inv in E; subst k.
-  - rewrite !andb_true_iff, !negb_true_iff. intros [[[Hn _] _] Hc]. unfold etree_key0, clark. cbn [fst snd].
-    rewrite Hn, Hc. reflexivity.
-  - intros _. unfold etree_key0. cbn [fst snd]. rewrite str_eqb_refl, andb_false_r. reflexivity.
-Qed.
-
-Lemma plainq_present dns k : plain dns = true -> skey_ok dns k = true -> plainq (present dns k) = true.
-Proof.
-  intros Hd. unfold skey_ok, skey_shape, plainq. rewrite present_spec.
-  destruct (spec_clark k) as [[[ns|] n]|]; [| |discriminate]; cbn [fst snd]; rewrite !andb_true_iff.
-  - intros [[[_ H1] H2] _]. auto.
-  - intros [H _]. auto.
-Qed.
-
-Lemma norm_present dns k : skey_ok dns k = true -> norm dns (present dns k) = present dns k.
-Proof.
-  unfold skey_ok, skey_shape, norm. rewrite present_spec.
-  destruct (spec_clark k) as [[[ns|] n]|]; [| |discriminate]; cbn [fst snd].
-  - rewrite !andb_true_iff, !negb_true_iff. intros [[[Hn _] _] _]. rewrite Hn. reflexivity.
-  - intros _. destruct (null dns); reflexivity.
-Qed.
 
 Definition eq_chk (d2 : dict) (kv : qname * str) : bool :=
   match dget d2 (fst kv) with Some v => str_eqb (snd kv) v | None => false end.
 
-Lemma abs_get_key dns (st : list (str * str)) k :
-  Forall (fun k => skey_ok dns k = true) (map fst st) -> skey_ok dns k = true ->
-  dget (abs_store dns st) (present dns k) = aget str_eqb st k.
-Proof.
-  intros Hk Hok. unfold dget. rewrite abs_store_mapk.
-  apply (mapk_aget str_eqb qname_eqb (present dns) (fun k => skey_ok dns k = true) str_eqb_eq qname_eqb_eq
-           (present_inj dns)); assumption.
-Qed.
-
 Lemma eq_items_spec s1 s2 l :
-  plain (st_dns s1) = true ->
-  Forall (fun k => skey_ok (st_dns s1) k = true) (map fst (st_store s1)) ->
-  Forall (fun k => skey_ok (st_dns s2) k = true) (map fst (st_store s2)) ->
-  (forall k v, In (k, v) l -> aget str_eqb (st_store s1) k = Some v /\ skey_ok (st_dns s1) k = true) ->
+  plain (st_dns s1) = true -> plain (st_dns s2) = true ->
+  SWf (st_dns s1) (st_store s1) -> SWf (st_dns s2) (st_store s2) ->
+  (forall k v, In (k, v) l -> aget str_eqb (st_store s1) k = Some v /\ In k (map fst (st_store s1))) ->
   eq_items s1 s2 (map fst l) = RBool (forallb (eq_chk (abs_store (st_dns s2) (st_store s2))) (abs_store (st_dns s1) l)).
 Proof.
-  intros Hp Hk1 Hk2. induction l as [|[k v] r IH]; intros Hl; [reflexivity|].
-  destruct (Hl k v (or_introl eq_refl)) as [Hv Hok].
-  assert (forall k' v', In (k', v') r -> aget str_eqb (st_store s1) k' = Some v' /\ skey_ok (st_dns s1) k' = true) as Hr
-    by (intros k' v' Hin; apply Hl; right; exact Hin).
+  intros Hp1 Hp2 Hs1 Hs2. induction l as [|[k v] r IH]; intros Hl; [reflexivity|].
+  destruct (Hl k v (or_introl eq_refl)) as [Hv Hin].
+  assert (forall k' v', In (k', v') r -> aget str_eqb (st_store s1) k' = Some v' /\ In k' (map fst (st_store s1))) as Hr
+    by (intros k' v' Hi; apply Hl; right; exact Hi).
   cbn [map fst eq_items abs_store forallb snd]. unfold eq_item, eq_chk at 1. cbn [fst snd].
-  pose proof (plainq_present _ k Hp Hok) as Hpq.
-  unfold skey at 1. rewrite (etree_key_nc _ _ _ Hk1 Hpq), (etree_key_present _ k Hok), Hv.
+  unfold skey at 1. rewrite (key_of_present _ _ Hp1 Hs1 k Hin), Hv.
   destruct (existsb (qname_eqb (present (st_dns s1) k)) (map (present (st_dns s2)) (map fst (st_store s2)))) eqn:Ex.
   - apply existsb_exists in Ex. destruct Ex as [K2 [Hin2 He]]. apply qname_eqb_eq in He. subst K2.
     apply in_map_iff in Hin2. destruct Hin2 as [k2 [Hpk Hin2]].
-    pose proof Hk2 as Hk2'. rewrite Forall_forall in Hk2'. pose proof (Hk2' k2 Hin2) as Hok2.
-    unfold skey. rewrite (etree_key_nc _ _ _ Hk2 Hpq). rewrite <- Hpk. rewrite (etree_key_present _ k2 Hok2).
-    rewrite (abs_get_key _ _ k2 Hk2 Hok2).
+    unfold skey. rewrite <- Hpk. rewrite (key_of_present _ _ Hp2 Hs2 k2 Hin2).
+    rewrite (dget_present _ _ Hp2 Hs2 k2 Hin2).
     destruct (aget str_eqb (st_store s2) k2) as [v2|]; [|reflexivity].
     destruct (str_eqb v v2); [|reflexivity]. cbn [andb]. apply IH. exact Hr.
   - assert (dget (abs_store (st_dns s2) (st_store s2)) (present (st_dns s1) k) = None) as Hn.
-    { apply (aget_none_notin qname_eqb qname_eqb_eq). rewrite abs_store_keys. intros Hin.
+    { apply (aget_none_notin qname_eqb qname_eqb_eq). rewrite abs_store_keys. intros Hi.
       assert (existsb (qname_eqb (present (st_dns s1) k)) (map (present (st_dns s2)) (map fst (st_store s2))) = true) as Ht.
-      { apply existsb_exists. exists (present (st_dns s1) k). split; [exact Hin|apply qname_eqb_refl]. }
+      { apply existsb_exists. exists (present (st_dns s1) k). split; [exact Hi|apply qname_eqb_refl]. }
       rewrite Ht in Ex. discriminate. }
     rewrite Hn. reflexivity.
 Qed.
@@ -1625,13 +1921,13 @@ Proof.
   intros W1 W2. unfold attrs_eq, dict_eqb. rewrite !abs_store_length.
   destruct (Nat.eqb (length (st_store s1)) (length (st_store s2))); [|reflexivity]. cbn [andb].
   assert (forall s, Wf s [] -> forallb decon_ok (map fst (st_store s)) = true) as H.
-  { intros s W. apply forallb_forall. intros k Hk. pose proof (wf_keys s [] W) as Hf. rewrite Forall_forall in Hf.
-    apply (skey_ok_decon (st_dns s)). exact (Hf k Hk). }
+  { intros s W. apply forallb_forall. intros k Hk. destruct (wf_st s [] W) as [Hf _]. rewrite Forall_forall in Hf.
+    apply shape_decon. exact (Hf k Hk). }
   rewrite (H s1 W1), (H s2 W2). cbn [andb].
-  apply eq_items_spec; [apply (wf_dns s1 [] W1)|apply (wf_keys s1 [] W1)|apply (wf_keys s2 [] W2)|].
+  apply eq_items_spec; [apply (wf_dns s1 [] W1)|apply (wf_dns s2 [] W2)|apply (wf_st s1 [] W1)|apply (wf_st s2 [] W2)|].
   intros k v Hin. split.
   - apply (in_aget_nodup str_eqb str_eqb_eq _ _ _ (wf_nodup s1 [] W1) Hin).
-  - pose proof (wf_keys s1 [] W1) as Hf. rewrite Forall_forall in Hf. apply Hf. apply (in_map fst) in Hin. exact Hin.
+  - apply (in_map fst) in Hin. exact Hin.
 Qed.
 
 Lemma dict_eqb_iff d1 d2 :
@@ -1666,11 +1962,7 @@ Proof.
 Qed.
 
 Lemma abs_nodup s T : Wf s T -> NoDup (map fst (abs_store (st_dns s) (st_store s))).
-Proof.
-  intros W. rewrite abs_store_mapk.
-  apply (mapk_nodup (present (st_dns s)) (fun k => skey_ok (st_dns s) k = true) (present_inj (st_dns s)));
-    [apply (wf_keys s T W)|apply (wf_nodup s T W)].
-Qed.
+Proof. intros W. apply abs_nodup_st; [apply (wf_dns s T W)|apply (wf_st s T W)]. Qed.
 
 Theorem attrs_eq_dict s1 s2 :
   sys_wf (s1, []) = true -> sys_wf (s2, []) = true ->
